@@ -191,6 +191,12 @@ func linearizeWith(v ssa.Value, loose bool) linForm {
 				add(x.X, -coef)
 				return
 			}
+		case *ssa.Call:
+			// a one-line accessor (pending() int { return f.writePos - f.readPos }): its expression stands for the call
+			if rv := pureExprResult(x); rv != nil {
+				add(rv, coef)
+				return
+			}
 		}
 		if k, ok := atomKey(v); ok {
 			l.terms[k] += coef
@@ -316,6 +322,7 @@ func ruleR05_1(p *Program, r *Report) {
 		}
 		res := map[string]*verdict{}
 		pos := map[string]string{}
+		entryFn := map[string]*ssa.Function{}
 		for _, fn := range p.Funcs() {
 			if fn.Pkg != sp {
 				continue
@@ -345,6 +352,7 @@ func ruleR05_1(p *Program, r *Report) {
 						v = &verdict{okBufio: true, okByteReader: true, internalOnly: true}
 						res[k] = v
 						pos[k] = p.InstrPos(c)
+						entryFn[k] = e
 					}
 					v.sites++
 					if !callerSupplied {
@@ -359,6 +367,48 @@ func ruleR05_1(p *Program, r *Report) {
 						v.okByteReader = false
 						v.atByte = p.InstrPos(c)
 					}
+				}
+			}
+		}
+		// upstream entries: another exported function of the package that hands its own reader parameter to an entry
+		// (NewReader calling Reset, a NewReaderDict that falls back to NewReader) exposes the same wrapping to its callers
+		for round := 0; round < 2; round++ {
+			for _, g := range p.Funcs() {
+				if g.Pkg != sp || !isEntry(g) || isExamples(g) {
+					continue
+				}
+				gk := shortFn(g)
+				if res[gk] != nil {
+					continue
+				}
+				for _, c := range allCalls(g) {
+					e := c.Common().StaticCallee()
+					if e == nil || e == g {
+						continue
+					}
+					ev := res[shortFn(e)]
+					if ev == nil || entryFn[shortFn(e)] != e || ev.internalOnly {
+						continue
+					}
+					handsOver := false
+					for _, a := range c.Common().Args {
+						if !types.Implements(a.Type(), ioReaderIface(p)) {
+							continue
+						}
+						for _, leaf := range p.valueSources(a) {
+							if par, ok := leaf.(*ssa.Parameter); ok && par.Parent() == g {
+								handsOver = true
+							}
+						}
+					}
+					if !handsOver {
+						continue
+					}
+					cp := *ev
+					res[gk] = &cp
+					pos[gk] = p.InstrPos(c)
+					entryFn[gk] = g
+					break
 				}
 			}
 		}
@@ -836,6 +886,10 @@ func ruleR11_2(p *Program, r *Report) {
 				if in, ok := v.(ssa.Instruction); ok {
 					loads = append(loads, in)
 				}
+				return
+			}
+			if c, ok := v.(*ssa.Call); ok && pureExprResult(c) != nil {
+				loads = append(loads, c) // the accessor reads the fields at the call
 				return
 			}
 			if in, ok := v.(ssa.Instruction); ok {
@@ -1389,4 +1443,46 @@ func ruleR09_3(p *Program, r *Report) {
 		}
 		r.Check(good, "R09.3", key, p.Pos(fn.Pos()), "the trigger fires exactly when the accumulation cursor "+cursorSel+" reaches the bound of the copy", why)
 	}
+}
+
+// pureExprResult: the call is to a method that takes only its receiver and whose body is one block computing one result
+// from loads of the receiver's fields and constants (no calls, no stores): it returns that result expression.
+func pureExprResult(c *ssa.Call) ssa.Value {
+	h := c.Common().StaticCallee()
+	if h == nil || h.Blocks == nil || len(h.Blocks) != 1 || h.Signature.Recv() == nil || len(h.Params) != 1 {
+		return nil
+	}
+	var res ssa.Value
+	for _, in := range h.Blocks[0].Instrs {
+		switch x := in.(type) {
+		case *ssa.FieldAddr, *ssa.BinOp, *ssa.Convert, *ssa.ChangeType, *ssa.Field:
+		case *ssa.UnOp:
+			if x.Op == token.ARROW {
+				return nil
+			}
+		case *ssa.DebugRef:
+		case *ssa.Return:
+			if len(x.Results) != 1 {
+				return nil
+			}
+			res = x.Results[0]
+		default:
+			return nil
+		}
+	}
+	return res
+}
+
+// ioReaderIface: the io.Reader interface type as the loaded program knows it.
+func ioReaderIface(p *Program) *types.Interface {
+	for _, sp := range p.Prog.AllPackages() {
+		if sp.Pkg.Path() == "io" {
+			if o := sp.Pkg.Scope().Lookup("Reader"); o != nil {
+				if it, ok := o.Type().Underlying().(*types.Interface); ok {
+					return it
+				}
+			}
+		}
+	}
+	return types.NewInterfaceType(nil, nil)
 }
